@@ -479,9 +479,12 @@ func contract_MessageInfo_skipField(mi *MessageInfo, b []byte, f *coderFieldInfo
 // validation found no required field missing or the caller allowed partial messages: the
 // initialization check skips undecoded lazy fields of messages decoded without AllowPartial
 // ("it was checked on unmarshal"), so anything else would make a partial message pass (C10; this
-// obligation failed on the original code: finding F7).
+// obligation failed on the original code: finding F7). An occurrence is diverted to the
+// decode-now / decode-later handling (which does not record it among the unknown fields) only when
+// its validation could not decide; an occurrence with the wrong wire type keeps going to the
+// unknown fields like in the eager decoder (C09).
 //
-// @ props C17 C06 C10
+// @ props C17 C06 C10 C09
 // @ mode int
 // @ nopanic
 // @ monotone-false initialized
@@ -492,6 +495,8 @@ func contract_MessageInfo_skipField(mi *MessageInfo, b []byte, f *coderFieldInfo
 // @ site b = b[1:]: 1 <= len(b)
 // @ site b = b[2:]: 2 <= len(b)
 // @ site end := start - len(b): 0 <= pos && pos <= start-len(b) && start-len(b) <= start
+// @ site lazyFields[f] = lazyUnmarshalLater: valid == ValidationUnknown
+// @ site lazyFields[f] = lazyUnmarshalNow: valid == ValidationUnknown
 // @ site#1 presence.SetPresentUnatomic(f.presenceIndex, mi.presenceSize): o.initialized || opts.flags&piface.UnmarshalCheckRequired == 0
 // @ site pos = end: imp(lazyDecode && f != nil && f.isLazy && num != lastNum, len(lazyIndex) > 0 && lazyIndex[len(lazyIndex)-1].FieldNum == uint32(num) && lazyIndex[len(lazyIndex)-1].Start == uint32(pos) && lazyIndex[len(lazyIndex)-1].End == uint32(end))
 // @ site pos = end: imp(lazyDecode && f != nil && f.isLazy && num == lastNum && len(lazyIndex) > 0, lazyIndex[len(lazyIndex)-1].End == uint32(end))
